@@ -14,6 +14,10 @@ conj, copy, normalize, move_qnidx, canonicalise (both directions), compress (3 c
 operator application / contraction, conj_trans, DMRG (1-site, 2-site, several roots), every
 EvolveMethod in real and imaginary time, the same for MpDm where defined, and for tree states
 (TTNS constructors, TTNO application, add, scale, canonicalise, compress, DMRG, 4 evolution schemes).
+Inside sweeping algorithms (compress, DMRG, TDVP-PS2, tree QR / truncation steps) the label
+invariant is additionally evaluated after every local update through recording wrappers placed
+around MatrixProduct._update_ms/_update_mps and TTNS.update_2site/compress_node/merge_to_* from
+the harness process (no source change): a stale label that a later step would overwrite is seen.
 
 Exceptions of the library are violations only where the property promises an object (constructors
 in a non-empty sector: D15); elsewhere they are counted as `rejected:*`.
@@ -117,6 +121,8 @@ def watch_local_updates(found):
     o2 = TTNS.update_2site
     o3 = TTNS.compress_node
     o4 = MatrixProduct._update_ms
+    o5 = TTNS.merge_to_child
+    o6 = TTNS.merge_to_parent
 
     def w1(self, *a, **kw):
         r = o1(self, *a, **kw)
@@ -162,10 +168,26 @@ def watch_local_updates(found):
                 found.append("labels:" + ",".join(f"{x}:{w}" for x, w in p[:3]))
         return r
 
+    def tree_wrapper(orig):
+        def w(self, *a, **kw):
+            r = orig(self, *a, **kw)
+            if not found:
+                try:
+                    p = L.tree_label_problems(self)
+                except Exception as e:
+                    p = [(-1, "label-check-error:" + type(e).__name__)]
+                if p:
+                    found.append("labels:" + ",".join(f"{x}:{w_}" for x, w_ in p[:3]))
+            return r
+        return w
+
     MatrixProduct._update_mps = w1
     TTNS.update_2site = w2
     TTNS.compress_node = w3
     MatrixProduct._update_ms = w4
+    # a QR step of a tree is decompose_* followed by merge_*: consistent again after the merge
+    TTNS.merge_to_child = tree_wrapper(o5)
+    TTNS.merge_to_parent = tree_wrapper(o6)
     try:
         yield
     finally:
@@ -173,16 +195,8 @@ def watch_local_updates(found):
         TTNS.update_2site = o2
         TTNS.compress_node = o3
         MatrixProduct._update_ms = o4
-
-
-def guarded(run, part, fn, *a):
-    """run one generated case; a library exception outside the operation under test (set-up
-    calls) is counted, never propagated"""
-    try:
-        return fn(*a)
-    except Exception as e:
-        run.count(f"rejected:{part}:setup:{type(e).__name__}")
-        return None
+        TTNS.merge_to_child = o5
+        TTNS.merge_to_parent = o6
 
 
 # ------------------------------------------------------------------------------------------
@@ -1119,8 +1133,15 @@ def part_tree(run, rng, ncases, quick, t_end):
                         O = TTNO(tree, terms)
                         method = tmethods[int(rng.integers(len(tmethods)))]
                         imag = rng.random() < 0.3
-                        w = cur.copy().canonicalise()
-                        w.compress_config = CompressConfig(CompressCriteria.fixed, max_bonddim=int(rng.integers(2, 6)))
+                        w = cur.copy()
+                        if rng.random() < 0.6:     # richer bonds: labels of several charges interleaved after compress
+                            L.reseed(rng)
+                            try:
+                                w = w.add(TTNS.random(tree, np.array(sector), int(rng.integers(3, 8))).scale(0.7))
+                            except Exception:
+                                pass
+                        w = w.canonicalise()
+                        w.compress_config = CompressConfig(CompressCriteria.fixed, max_bonddim=int(rng.integers(2, 7)))
                         w.compress()
                         if method == EvolveMethod.tdvp_vmf:
                             w.evolve_config = EvolveConfig(method, ivp_rtol=1e-4, ivp_atol=1e-7, force_ovlp=False)
@@ -1197,7 +1218,7 @@ def part_tree(run, rng, ncases, quick, t_end):
 # directed minimal reproductions of the known defects in scope (always exercised)
 # ------------------------------------------------------------------------------------------
 def directed(run, rng):
-    for fn in (_directed_d1, _directed_d2, _directed_d15):
+    for fn in (_directed_d1, _directed_d2, _directed_d15, _directed_d15_tree):
         try:
             fn(run, rng)
         except Exception as e:
@@ -1267,6 +1288,28 @@ def _directed_d15(run, rng):
     if fails:
         run.violation(SIG_D15, dict(first, failures_out_of_10=fails))
     run.count("directed:D15")
+
+
+def _directed_d15_tree(run, rng):
+    """tree analogue of D15: three electron sites in a line, all occupied, m_max = 1"""
+    from renormalizer import BasisSimpleElectron
+    from renormalizer.tn import TTNS, BasisTree
+    tree = BasisTree.linear([BasisSimpleElectron(("e", i)) for i in range(3)])
+    fails = 0
+    first = None
+    for i in range(10):
+        seed = L.reseed(rng)
+        try:
+            TTNS.random(tree, 3, 1)
+        except Exception as e:
+            if not is_dead_end_error(e):
+                raise
+            fails += 1
+            first = first or dict(tree="BasisTree.linear(3 x BasisSimpleElectron)", sector=[3], m_max=1, numpy_seed=seed,
+                                  error=f"{type(e).__name__}: {e}")
+    if fails:
+        run.violation(SIG_D15_TREE, dict(first, failures_out_of_10=fails))
+    run.count("directed:D15-tree")
 
 
 def search(run, rng, quick):
